@@ -33,7 +33,16 @@
 (*                             (gate numbers 1..n+4, see GateOf)           *)
 (*                                                                         *)
 (* File i (1..NFiles) is a raw file holding row i; rows r, r' with         *)
-(* KeyOf(r) = KeyOf(r') have identical tags+time (only when Dedup).        *)
+(* KeyOf(r) = KeyOf(r') have identical tags+time.  Input classes (dedup):  *)
+(*  "none"   no file carries metadata: every row is its own key            *)
+(*  "tags"   every raw file declares the same tag set; rows 2k-1, 2k are   *)
+(*           true duplicates (same tags+time) and may collapse             *)
+(*  "shrink" files carry DIFFERENT arc:tags sets: the older half declares  *)
+(*           {host, region}, the newer half only {host}; rows 2k-1, 2k of  *)
+(*           the older half differ ONLY in region: they are distinct rows   *)
+(*           and collapse iff a job dedups on the narrower set.  The code  *)
+(*           dedups on the UNION of arc:tags of the raw inputs of the job  *)
+(*           (TagUnion = TRUE; FALSE = "newest tagged file only").         *)
 (* A "<out>.part" left by a kill between copy and rename is a directory    *)
 (* entry: queries (glob of .parquet) do not see it; the hourly tier's      *)
 (* listing saw it before db8e9fa (ListAllEntries = TRUE).                  *)
@@ -45,14 +54,16 @@ CONSTANTS NFiles,     \* raw files in the partition
           MaxBatch,   \* compaction.max_files_per_batch (>= 2)
           MaxKills,   \* kills over the whole behaviour
           MaxCycles,  \* compaction cycles
-          DedupModes, \* subset of BOOLEAN: does the partition carry dedup metadata (chosen in Init)
+          DedupModes, \* subset of {"none", "tags", "shrink"}: input class, chosen in Init
+          TagUnion,   \* TRUE: readTagColumnsFromParquetFiles unions arc:tags over all inputs (the code);
+                      \* FALSE: it takes the newest tagged input's set only (negative control)
           RecoverOnCrash, \* TRUE (code since e2ad6be): CompactPartition resolves the crashed job's own manifest
                           \* before compactFilesAdaptively retries; FALSE = as written before (negative control)
           ListAllEntries, \* FALSE (code since db8e9fa): tiers list only *.parquet files; TRUE = every directory
                           \* entry incl. a leftover "<out>.parquet.part" (negative control)
           Emit        \* print one TRACE line per terminal state
 
-VARIABLE dedup  \* raw files carry arc:tags / arc:dedup_time (fixed in Init)
+VARIABLE dedup  \* input class (fixed in Init)
 
 MinBatch == 2   \* MinFilesPerBatch = minBatchSize
 MaxDepth == 4   \* maxDepth in compactFilesAdaptively
@@ -61,7 +72,12 @@ Rows      == 1..NFiles
 EmptyBag  == [r \in Rows |-> 0]
 Min(S)    == CHOOSE x \in S : \A y \in S : x <= y
 
-KeyOf(r)  == IF dedup THEN (r + 1) \div 2 ELSE r
+Half      == NFiles \div 2
+FullTags(i) == i <= Half                        \* "shrink": raw file i declares {host, region}
+\* what the property calls "identical tag values and timestamp"
+KeyOf(r)  == IF dedup = "tags" THEN (r + 1) \div 2 ELSE r
+\* key of a dedup on the narrower tag set {host}: the rows of the older half pair up
+NarrowKey(r) == IF r <= Half THEN (r + 1) \div 2 ELSE NFiles + r
 Keys      == {KeyOf(r) : r \in Rows}
 
 RECURSIVE BagSum(_)
@@ -71,8 +87,8 @@ BagSum(S) == IF S = {} THEN EmptyBag
                   IN [r \in Rows |-> x.bag[r] + rest[r]]
 
 \* QUALIFY ROW_NUMBER() OVER (PARTITION BY tags, time) = 1
-Collapse(b) == [r \in Rows |-> IF b[r] > 0 /\ r = Min({q \in Rows : b[q] > 0 /\ KeyOf(q) = KeyOf(r)})
-                                THEN 1 ELSE 0]
+Collapse(b, K(_)) == [r \in Rows |-> IF b[r] > 0 /\ r = Min({q \in Rows : b[q] > 0 /\ K(q) = K(r)})
+                                      THEN 1 ELSE 0]
 
 RECURSIVE AscSeq(_)
 AscSeq(S) == IF S = {} THEN <<>> ELSE LET m == Min(S) IN <<m>> \o AscSeq(S \ {m})
@@ -198,9 +214,16 @@ Download ==
 Compact ==
     /\ job.pc = "compact"
     /\ LET ins  == {FileById(job.valid[i]) : i \in DOMAIN job.valid}
-           meta == dedup /\ \E f \in ins : f.kind = "raw"
+           raws == {f \in ins : f.kind = "raw"}             \* only raw files carry arc:tags
+           meta == dedup # "none" /\ raws # {}
+           \* the tag set the job dedups on: union over its raw inputs, or the newest raw input's only
+           full == IF TagUnion THEN \E f \in raws : FullTags(f.id)
+                   ELSE FullTags((CHOOSE f \in raws : \A g \in raws : g.id <= f.id).id)
            sum  == BagSum(ins)
-       IN job' = [job EXCEPT !.pc = "manifest", !.out = nextId, !.bag = IF meta THEN Collapse(sum) ELSE sum]
+           out  == IF ~meta THEN sum
+                   ELSE IF dedup = "shrink" /\ ~full THEN Collapse(sum, NarrowKey)
+                   ELSE Collapse(sum, KeyOf)
+       IN job' = [job EXCEPT !.pc = "manifest", !.out = nextId, !.bag = out]
     /\ nextId' = nextId + 1
     /\ UNCHANGED <<dedup, store, manifests, mgr, queue, cyc, kills, cycKills, lastClean, unsafeDel, hist>>
 
@@ -299,6 +322,12 @@ DeleteSafe == ~unsafeDel
 
 \* "once a later compaction cycle has run, the partition shows exactly the rows it showed before"
 ConservedAfterCleanCycle == (mgr = "idle" /\ cyc > 0 /\ lastClean) => Conserved(store)
+
+\* The "shrink" class reaches the OPEN finding "compacted output carries no arc:tags" (a later job that sees only
+\* {host}-declaring raw files next to an earlier output dedups on the narrower set): both properties are known to
+\* fail there and are checked on the other classes; real runs of that class are judged by CompactionProp as usual.
+DeleteSafeExceptOpen == dedup # "shrink" => DeleteSafe
+ConservedExceptOpen  == dedup # "shrink" => ConservedAfterCleanCycle
 
 EmitInv == (Emit /\ mgr = "idle" /\ cyc = MaxCycles) => PrintT(<<"TRACE", ToJson(hist)>>)
 =============================================================================
